@@ -644,7 +644,7 @@ func (nfs *Nfs) NFSPROC3_RENAME(args nfstypes.RENAME3args) nfstypes.RENAME3res {
 			inodes = []*inode.Inode{dipfrom}
 		} else {
 			inodes = lockInodes(op, twoInums(fromh.Ino, toh.Ino))
-			if inodes == nil {
+			if inodes == nil || inodes[0].Gen != fromh.Gen || inodes[1].Gen != toh.Gen {
 				errRet(op, &reply.Status, nfstypes.NFS3ERR_STALE)
 				done = true
 				break
